@@ -9,13 +9,15 @@ import os
 from . import common as C
 from . import term as TM
 
+SO_CAP = 60        # Z3 second opinions per (event kind, clause); a mutant can reject tens of thousands of events
 FIXED = 7          # seed of the deterministic streams (independent of VERIF_SEED: their failing inputs are exact sets)
 
 # clauses that are recorded but, by the property statements, are not verdicts
-# (kind, clause, outcome): Base.identical raises the truthiness error whenever the two variable maps differ; the
-# statement constrains only the *answers* of identical() (DESIGN C08), so this is counted, not judged
+# (kind, clause): Base.identical raises the truthiness ClaripyOperationError whenever the two variable maps differ
+# (and BV.identical a ClaripyZeroDivisionError out of the VSA conversion of x % 0); the statement constrains only the
+# *answers* of identical() (DESIGN C08), so an exception is counted per type in the evidence, not judged
 INFORMATIONAL = {
-    ("alpha", "outcome", "PyError:ClaripyOperationError"),
+    ("alpha", "outcome"),
 }
 
 
@@ -51,7 +53,7 @@ def streams_for(pid, tier, seed):
             S.append({"gen": "simplify", "src": "exh", "W": W, "depth": 2, "sample": k, "sample_seed": seed})
         S.append({"gen": "simplify", "src": "trees", "trees": "core", "widths": [3], "det": True, "stride": 4 if q else 1})
         S.append({"gen": "simplify", "src": "rules", "per": 1 if q else 6, "whole": True})
-        S.append({"gen": "simplify", "src": "rand", "n": 60 if q else 1500, "depth": 5})
+        S.append({"gen": "simplify", "src": "rand", "n": 60 if q else 1500, "depth": 5, "budget_s": 8})
         S.append({"gen": "z3abs", "widths": [1, 2, 3, 4], "det": True})
         S.append({"gen": "fpstr", "det": True})
     return S
@@ -302,17 +304,19 @@ def check(pid, tier, regen=False):
     findings = load_findings(pid)
     new_exact = set()
     n_checked = n_known = n_info = 0
+    n_so = {}
     info = {}
     for _, ev, clause, _x in bad:
         n_checked += 1
-        if (ev["k"], clause, ev["out"]) in INFORMATIONAL:
+        if (ev["k"], clause) in INFORMATIONAL:
             n_info += 1
             info[ev["out"]] = info.get(ev["out"], 0) + 1
             continue
         s = input_sig(ev, clause)
         pl = payload(pid, ev, clause)
         pl["sig"] = s
-        so = second_opinion(ev, clause)
+        n_so[(ev["k"], clause)] = n_so.get((ev["k"], clause), 0) + 1
+        so = second_opinion(ev, clause) if n_so[(ev["k"], clause)] <= SO_CAP else "not-run (cap %d per clause)" % SO_CAP
         pl["second_opinion"] = so
         if so == "spec-suspect":
             raise C.MachineryError("spec (TLC) rejects an event that Z3 accepts: " + json.dumps(pl)[:2000])
